@@ -225,8 +225,8 @@ func literal(v any) string {
 	case float64:
 		return strconv.FormatFloat(v, 'g', -1, 64)
 	case string:
-		bs, _ := json.Marshal(v)
-		return string(bs)
+		bs, _ := jsonMarshalString(v)
+		return bs
 	}
 	return canon(v)
 }
